@@ -8,7 +8,7 @@
    Check/C11bCheck.v) compare the records under the worst-case schedule of Close: a write of a goroutine of
    the interceptor is held by the next writer while streams are unbound and Close is called (twice). *)
 From IV Require Import Base.Word Model.Lifecycle Proofs.LifecycleProofs Model.LifecycleX Proofs.LifecycleXProofs
-  Check.C11Check Check.C11bCheck Proofs.LifecycleGateProofs.
+  Check.C11Check Check.C11bCheck Proofs.LifecycleGateProofs Model.ChainClose Proofs.ChainCloseProofs.
 
 (* with both bits off the extended system is the base system: every theorem of C11.v holds for it *)
 Theorem C11b_plain_is_base : forall xc, xsafe xc = true ->
@@ -160,6 +160,41 @@ Print Assumptions C11b_gate_model_clean_instances.
    the write completes after the return, a goroutine is alive at the return; the second Close does the same *)
 Example C11b_gate_model_fastclose :
   map (gate_model nack_responder_fastclose_xcfg) [0; 1; 2; 3] =
-  [[1; 0; 0; 0; 0; 0; 0; 0]; [1; 1; 0; 1; 0; 0; 0; 1]; [1; 0; 1; 1; 0; 0; 0; 1]; [1; 1; 1; 1; 0; 0; 0; 1]].
+  [[1; 0; 0; 0; 0; 0; 0; 0; 0; 0]; [1; 1; 0; 1; 0; 0; 0; 1; 0; 0]; [1; 0; 1; 1; 0; 0; 0; 1; 0; 0]; [1; 1; 1; 1; 0; 0; 0; 1; 0; 0]].
 Proof. exact gate_model_fastclose. Qed.
 Print Assumptions C11b_gate_model_fastclose.
+
+(* ---- Chain.Close (Model/ChainClose.v): a chain is the list of its members' LTSs, each with a bit
+   "its Close returns an error" ---- *)
+
+(* chain.go Close: every member receives exactly one Close and its close channel is closed afterwards,
+   whichever members' Close returned an error *)
+Theorem C11b_chain_close_closes_every_member : forall t ms,
+  Forall2 (fun m m' => closed (m_st m') = true /\ m_closes m' = S (m_closes m) /\ m_cfg m' = m_cfg m)
+          ms (chain_close_all t ms).
+Proof. exact chain_close_all_closes. Qed.
+Print Assumptions C11b_chain_close_closes_every_member.
+
+(* ... and the returned error holds the error of every member whose Close failed (errors.Is) *)
+Theorem C11b_chain_close_keeps_every_error : forall ms k m,
+  nth_error ms k = Some m -> m_fails m = true -> In k (chain_errs_all ms).
+Proof. exact chain_errs_all_complete. Qed.
+Print Assumptions C11b_chain_close_keeps_every_error.
+
+(* seeded change (Chain.Close stops at the first member whose Close fails): Chain [mock whose Close fails;
+   report receiver]: after Chain.Close returned the receiver has received no Close, its close channel is
+   open, its loop ticks and writes a report; chain.go's loop closes it once *)
+Theorem C11b_chain_close_stops_at_first_error_refuted : exists ms m' s',
+  let after := chain_close_stop 0 ms in
+  nth_error after 1 = Some m' /\ m_closes m' = 0%nat /\ closed (m_st m') = false /\
+  run (m_cfg m') (m_st m') [LTick 1; LEmit 1] = Some s' /\ emitted s' = [1] /\
+  (exists m2, nth_error (chain_close_all 0 ms) 1 = Some m2 /\ m_closes m2 = 1%nat /\ closed (m_st m2) = true).
+Proof. exact chain_close_stop_refuted. Qed.
+Print Assumptions C11b_chain_close_stops_at_first_error_refuted.
+
+(* the oracle on the Close accounting of a chain run reports no code iff Chain.Close was called as often as the
+   script says and every member received exactly that many Close calls and the errors were right *)
+Theorem C11b_chain_close_oracle_sound : forall ops cobs,
+  chain_close_codes ops cobs = [] <-> chain_close_ok ops cobs.
+Proof. exact chain_close_codes_nil_iff. Qed.
+Print Assumptions C11b_chain_close_oracle_sound.
